@@ -57,6 +57,9 @@ class Rewriter:
         self.t = text
         self.what = what
         self.applied = []
+        # fn option `unpinned=f,g`: fields of a pin_project struct that carry no `#[pin]`; for those
+        # `this.f.as_mut()` is a call of F::as_mut (e.g. Option::as_mut), not a Pin reborrow (R6)
+        self.unpinned = set()
 
     def note(self, rule, n=1):
         if n:
@@ -237,6 +240,11 @@ class Rewriter:
         n += k
         t, k = re.subn(r"\*this\.([A-Za-z_][A-Za-z0-9_]*)", r"self.\1", t)
         n += k
+        if self.unpinned:
+            # un-pinned field: `this.f` is `&mut F`, `.as_mut()` is F's own method and stays
+            unp = "|".join(re.escape(f) for f in sorted(self.unpinned))
+            t, k = re.subn(r"\bthis\.(%s)\.as_mut\(\)" % unp, r"(&mut self.\1).as_mut()", t)
+            n += k
         t, k = re.subn(r"\bthis\.([A-Za-z_][A-Za-z0-9_]*)\.as_mut\(\)", r"(&mut self.\1)", t)
         n += k
         t, k = re.subn(r"\bthis\.([A-Za-z_][A-Za-z0-9_]*)", r"(&mut self.\1)", t)
@@ -873,7 +881,28 @@ def emit_fn(u: Unit, fpath, impl_pat, name, spec: FnSpec, reach: bool, mutate):
     text = src.text(it.start, it.end)
     what = "fn %s%s (%s)" % ((re.sub(r"\s+", " ", header) + " :: ") if header else "", name, fpath)
     rw = Rewriter(text, what)
+    rw.unpinned = set(x.strip() for x in spec.opts.get("unpinned", "").split(",") if x.strip())
     t = rw.common()
+    # R10b: associated types `type X = Y;` of a trait impl.  When the trait is dropped (R10) every
+    # `Self::X` in the fn text is replaced by its definition Y taken from the same impl block; when the
+    # trait is kept they are emitted inside the impl.  Additive: fires only if the text mentions `Self::X`
+    # (R10) or keep_trait=1 is given and the block defines associated types.
+    assoc = []
+    if header is not None and " for " in header:
+        blk = it.impl_header
+        inner = src.m[blk.body_open + 1:blk.end - 1]
+        for mm in re.finditer(r"(?m)^[ \t]*type\s+([A-Za-z_][A-Za-z0-9_]*)\s*=\s*([^;]+);", inner):
+            a0 = blk.body_open + 1 + mm.start()
+            if src._depth_at(a0, blk.body_open + 1) == 0:
+                ty = re.sub(r"\s+", " ", src.src[blk.body_open + 1 + mm.start(2):blk.body_open + 1 + mm.end(2)]).strip()
+                assoc.append((mm.group(1), ty))
+        if assoc and spec.opts.get("keep_trait") != "1":
+            k = 0
+            for _round in range(3):  # definitions may mention other associated types
+                for an, ty in assoc:
+                    t, kk = re.subn(r"\bSelf::%s\b" % re.escape(an), ty, t)
+                    k += kk
+            rw.note("R10b", k)
     if mutate:
         t = mutate(fpath, name, t)
     if reach:
@@ -899,6 +928,10 @@ def emit_fn(u: Unit, fpath, impl_pat, name, spec: FnSpec, reach: bool, mutate):
         if "impl_header" in spec.opts:
             h = spec.opts["impl_header"]
         u.emit(h + " {", ("repo", what))
+        if assoc and spec.opts.get("keep_trait") == "1" and "impl_header" not in spec.opts:
+            for an, ty in assoc:
+                u.emit("    type %s = %s;" % (an, ty), ("repo", what))
+            rw.note("R10b", len(assoc))
         u.emit(indent(t, "    "), ("repo", what))
         u.emit("}", ("repo", what))
     else:
